@@ -145,6 +145,12 @@ def container_method(I, fn, args, kwargs):
         args = [key] + list(args[1:])
     if name in ("index", "count") and any(is_sym(payload(a)) for a in args):
         raise Unsupported(f"list.{name} with symbolic argument")
+    if name == "sort" and isinstance(obj, list) and id(obj) in I.local_ids and (
+            any(deep_sym(x) or isinstance(x, SObj) for x in obj) or kwargs.get("key") is not None):
+        # list.sort on a list allocated in this call: the model of sorted(), written back in place
+        res = call(I, sorted, [obj], kwargs)
+        obj[:] = res
+        return None
     if name in I_MUTATORS and id(obj) not in I.local_ids:
         I.writes.append(dict(kind="container", target=type(obj).__name__, attr=name, shared=True,
                              where="<call>", line=0))
